@@ -61,8 +61,9 @@ pub fn all_cells() -> Vec<RCell> {
                     (Role::Any, _) => vec![true, false],
                 };
                 let mut stages: Vec<(Stage, bool)> = Vec::new();
-                if ctor != CVer::Undetermined {
-                    stages.push((Stage::Fresh, role != Role::Server));
+                if ctor != CVer::Undetermined || (hs == V::V311 && role != Role::Client) {
+                    // (an undetermined connection has one Fresh stage, listed under the v3.1.1 handshake)
+                    stages.push((Stage::Fresh, role != Role::Server && ctor != CVer::Undetermined));
                 }
                 for side in sides {
                     for st in [Stage::AfterClose, Stage::Connecting, Stage::Connected] {
